@@ -6,8 +6,15 @@
 2. TLC generates environment fault schedules from MuxPoolSim.tla (eager normal form): ALL behaviours of the small
    pools by BFS, seeded -simulate for the larger ones.
 3. The in-package Go harness runs them on a REAL muxProvider + multiMuxManager with real yamux sessions on pipes.
-4. TLC evaluates MuxPoolObs.tla on the recorded events: the only source of VIOLATION. Leaks are classified by
-   cause from the logged commands (which call of the attempt ended it, and whether the context was already done).
+4. TLC evaluates MuxPoolObs.tla on the recorded events: the source of VIOLATION, together with the harness supervisor:
+   a harness process that dies of a panic whose stack runs through non-test code of <repo>/transport/mux is clause
+   "crash" (what the shard recorded before is still judged; the rest of its schedules run in a fresh process).
+   Leaks are classified by cause from the logged commands (which call of the attempt ended it, context done or not).
+The hand-over to the manager is schedulable: with AddGate the Sim emits "Add" commands and the harness parks the provider
+at the hook mux.provider.beforeAdd (provider.go, build tag verif), so PeerClose of the attempt's own session, kills of
+other sessions and Cancel land between the successful Ping and AddConnection. The loopback (kill / cancel only) behaviours
+are also run on the scripted pool with a benign refill after every command (older session dies, newer ones live, slot is
+refilled), where registered and live sessions are compared by identity (clauses leak / stale).
 """
 import json
 import os
@@ -33,8 +40,9 @@ MANIFEST = {"C10": dict(
          "table never to exceed N, permits to be conserved at every settled point, the pool to return to N with a "
          "reachable peer, and after shutdown every connection closed on both ends.",
     note="Trusted: TLC; the scripted connProvider/sessionFn gates (the provider has no step between sessionFn and Ping, so "
-         "parking inside sessionFn stands for both locations); reading the semaphore counters by reflection at settled "
-         "points. Internal steps run eagerly in replay. The real establisher/receiver connProviders are not driven (read: "
+         "parking inside sessionFn stands for both locations); the verif-tagged hook mux.provider.beforeAdd as the gate of "
+         "the hand-over to the manager; reading the semaphore counters by reflection at settled points. The other internal "
+         "steps run eagerly in replay. A panic of proxy code that kills the harness process is reported as clause crash. The real establisher/receiver connProviders are not driven (read: "
          "receivingConnProvider.NewConnection drops an accepted conn unclosed when the lifetime ended meanwhile).")}
 HARNESS = ["zz_verif_muxpool_test.go"]
 PROFILES = {
@@ -178,17 +186,21 @@ def run(c, a):
             raise Broken("no behaviours generated")
         if len(scheds) > prof["limit"]:
             scheds = rnd.sample(scheds, prof["limit"])
-        # two REAL pools (establisher <-> receiver) over loopback: session kills and cancel only; first in the list so
-        # that the (slower) loopback runs are spread evenly over the shards
+        # two REAL pools (establisher <-> receiver) over loopback: session kills and cancel only; one block at the end of the
+        # list, so that striping spreads the (slower) loopback runs evenly over the shards and every shard runs its
+        # scripted schedules first
         loops = []
         for cfg, n, cap in prof["loop"]:
             got = collect(cfg, n, workers=2)
             exhaustive.append("%s: %d behaviours" % (cfg[:-4], len(got)))
+            # the same kill / refill / cancel behaviours on the scripted pool (every conn tracked by identity): the harness
+            # refills the pool benignly after every kill; cheap, so ALL of them also when the loopback runs are sampled
+            scheds += [{"n": n, "cmds": x, "benign": True} for x in got]
             if cap and len(got) > cap:
                 got = rnd.sample(got, cap)
                 exhaustive[-1] += " (%d sampled)" % cap
             loops += [{"n": n, "cmds": x, "loop": True} for x in got]
-        scheds = loops + scheds
+        scheds = scheds + loops
         for i, s in enumerate(scheds):
             s["id"] = "s%d" % i
             s["role"] = "client" if i % 2 == 0 else "server"
@@ -210,25 +222,64 @@ def run(c, a):
                        timeout=600, cwd=os.path.join(REPO, "transport", "mux"))
     events = []
     crashed = []
-    for (rc, out, outp), inp in zip(res, files):
-        if rc != 0:
-            # a harness process that died of a panic whose stack runs through non-test code of /repo/transport/mux is a
-            # verdict (the proxy crashed), not a broken check; what it recorded before is still judged
-            txt = proxy_panicked(outp + ".log")
-            if not txt:
-                raise Broken("harness shard failed rc=%s: %s" % (rc, out[-1500:]))
-            crashed.append((inp, outp, txt))
-        if not os.path.exists(outp):
+
+    def read_shard(rc, outp):
+        got = []
+        if os.path.exists(outp):
+            for line in open(outp, errors="replace"):
+                try:
+                    got.append(json.loads(line))
+                except ValueError:
+                    if rc == 0:
+                        raise Broken("unreadable trace line in %s" % outp)
+                    break       # the line being written when the process died
+        elif rc == 0:
+            raise Broken("harness shard wrote no output: " + outp)
+        return got
+
+    def running_schedule(inp, got):
+        """the schedule that was running when the process died: the first of the input without an End event (both Ends
+        for a loopback schedule, which is recorded as two runs written out together at its end)"""
+        ended, cur = set(), None
+        for e in got:
+            if e["ev"] == "Config":
+                cur = e.get("id", "").split("/")[0]
+            elif e["ev"] == "End" and cur:
+                ended.add(cur)
+        todo = [json.loads(line) for line in open(inp)]
+        for i, sc in enumerate(todo):
+            if sc["id"] not in ended:
+                return sc, todo[i + 1:]
+        return None, []
+
+    pending = [(rc, out, outp, inp) for (rc, out, outp), inp in zip(res, files)]
+    for gen in range(1, 5):
+        again = []
+        for rc, out, outp, inp in pending:
+            txt = ""
             if rc != 0:
-                continue
-            raise Broken("harness shard wrote no output: %s" % out[-1500:])
-        for line in open(outp, errors="replace"):
-            try:
-                events.append(json.loads(line))
-            except ValueError:
-                if rc == 0:
-                    raise Broken("unreadable trace line in %s" % outp)
-                break       # the line being written when the process died
+                # a harness process that died of a panic whose stack runs through non-test code of /repo/transport/mux is
+                # a verdict (the proxy crashed), not a broken check; what it recorded before is still judged, and the
+                # rest of the shard's schedules are run in a fresh process (at most 3 times) so that the monitor sees them
+                txt = proxy_panicked(outp + ".log")
+                if not txt:
+                    raise Broken("harness shard failed rc=%s: %s" % (rc, out[-1500:]))
+            got = read_shard(rc, outp)
+            events += got
+            if txt:
+                sc, rest = running_schedule(inp, got)
+                crashed.append((sc, txt))
+                if rest and gen <= 3:
+                    inp2 = "%s.r%d" % (inp.split(".r")[0], gen)
+                    with open(inp2, "w") as f:
+                        for x in rest:
+                            f.write(json.dumps(x) + "\n")
+                    again.append(inp2)
+        if not again:
+            break
+        r2 = c.run_shards(binpath, "^TestVerifMuxPoolSchedules$", again, os.path.join(c.scratch, "muxpool-out-r%d" % gen),
+                          timeout=600, cwd=os.path.join(REPO, "transport", "mux"))
+        pending = [(rc, out, outp, inp) for (rc, out, outp), inp in zip(r2, again)]
     # ---- 4. monitor
     lines = [json.dumps(e) for e in events]
     ro = c.tlc("MuxPool", "MuxPoolObs", "obs.cfg", workers=1, timeout=1200, files={"trace.ndjson": "\n".join(lines) + "\n"},
@@ -246,27 +297,7 @@ def run(c, a):
         run_of.append(len(runs) - 1)
         runs[-1].append(e)
     by_id = {s["id"]: s for s in scheds}
-    for inp, outp, txt in crashed:
-        # the schedule that was running: the first one of the shard's input without an End event in its output
-        ended, last_cfg = set(), None
-        if os.path.exists(outp):
-            cur = None
-            for line in open(outp, errors="replace"):
-                try:
-                    e = json.loads(line)
-                except ValueError:
-                    break
-                if e["ev"] == "Config":
-                    cur = e.get("id", "").split("/")[0]
-                    last_cfg = cur
-                elif e["ev"] == "End" and cur:
-                    ended.add(cur)
-        running = None
-        for line in open(inp):
-            sc = json.loads(line)
-            if sc["id"] not in ended or (sc.get("loop") and sc["id"] == last_cfg):
-                running = sc
-                break
+    for running, txt in crashed:
         frames = [ln.strip() for ln in txt.split("\n") if "/transport/mux/" in ln and "zz_verif" not in ln][:3]
         c.violation({"module": "MuxPool", "clause": "crash", "cause": "proxy-panic"},
                     "the harness process died of a panic in proxy code: %s [%s] in schedule %s"
@@ -331,7 +362,7 @@ def run(c, a):
     })
     run_by_id = {r[0].get("id"): r for r in runs}
     samples = []
-    for s in ([scheds[0]] if nloop else []) + scheds[nloop:nloop + 2]:
+    for s in scheds[:2] + ([scheds[-1]] if nloop else []):
         rid = s["id"] + "/establisher" if s.get("loop") else s["id"]
         samples.append({"schedule": s, "end": [e for e in run_by_id.get(rid, []) if e["ev"] in ("End", "Healed")][-2:]})
     bad_scheds = {runs[ri][0].get("id", "").split("/")[0] for ri in bad_runs}
